@@ -189,7 +189,9 @@ fn gen_cfg(r: &mut Rng, class: u64) -> Cfg {
     };
     let vect = if r.chance(1, 3) { 0x81 } else { r.below(256) as u8 };
     let prio = if r.chance(1, 2) { r.below(8) as u8 } else { r.below(256) as u8 };
-    Cfg { s, e, vect, prio, seed: r.next() }
+    // seeds include the edge values 0, 1 and u64::MAX (a seed is a value, not an option)
+    let seed = match r.below(12) { 0 => 0, 1 => 1, 2 => u64::MAX, _ => r.next() };
+    Cfg { s, e, vect, prio, seed }
 }
 
 fn gen_bound_pair(r: &mut Rng) -> (Bound<u32>, Bound<u32>) {
@@ -288,7 +290,7 @@ mod insim {
             // simulator — that is C10's subject, not the timer's)
             let lo = 1 + r.below(6) as u32;
             let hi = lo + r.below(6) as u32;
-            let seed = r.next();
+            let seed = match r.below(10) { 0 => 0, 1 => u64::MAX, _ => r.next() };
             let steps = 400;
             let replay = format!("timer.insim\t({seed} {lo} {hi})");
             let Some(a) = catch(|| run(seed, lo, hi, true, steps)).flatten() else {
